@@ -120,6 +120,22 @@ CLAIMED = {
   technique="Lean 4 proof (lockset => DRF, verified trace checker, lazy-init transition system, linearizable string pool) + translator-generated "
             "lock-site table + recorded-trace checking, digest comparison and ThreadSanitizer search on the real library",
   ref="4/C17"),
+ "C19": dict(
+  text="Lean 4 theorems, unbounded: for EVERY entity table (cyclic or not) expansion halts within reader-stack depth 2|table|+1 "
+       "(the skipped top-of-stack test in pushReader is accounted for); a reachable self-referential entity is always reported; "
+       "with limit L at most L+1 expansions are performed and the fatal error is raised iff the document needs more than L; "
+       "documents within the limit are unaffected. Fetch gating: a code-shaped interpreter of createReader / external-subset / "
+       "schemaLocation / import-include-redefine logic whose log type proves every fetch is at a site permitted by the Spec's switch table, "
+       "is offered to the resolver first with base = URI of the containing entity, and uses a supplied source instead of the default; "
+       "nothing is opened when default resolution is disabled. RFC 2396 5.2: XMLURL::conglomerateWithBase / XMLUri::initialize "
+       "equal the Spec on stated domains, dot-segment removal idempotent. Tied to the code by hx_ext (recording fgFileMgr/fgNetAccessor, "
+       "recording resolvers): generated file trees x configurations (exact ordered trace predicted, property text is the judge), entity documents "
+       "at L-1/L/L+1, cycles 1..6 at 5 sites, exponential tables, and XMLURL/XMLUri on RFC 2396 appendix C + random pairs.",
+  note="PARTIAL: character-level XMLURL::parse, empty inner path segments, backslashes, standard-URI-conformant mode, grammar caching, "
+       "externalSchemaLocation, handleMultipleImports, exitOnFirstFatal=false not modelled; GE/PE names assumed disjoint; driver's string-level "
+       "defaultSource is correspondence-only. Trusted: Lean kernel + std axioms; Spec.Entity/ExtGate/Uri; Python renderers and judge.",
+  technique="Lean 4 proof (simulation, well-founded measure, correct-by-construction log type) + model/implementation/Spec correspondence",
+  ref="4/C19"),
 }
 
 def main():
